@@ -202,3 +202,208 @@ def index_of(t: Term):
                 pos = ("front", hi + pos[1])  # x[:n][-k] is x[n-k] when len(x) >= n
         cur = strip(b[0])
     return cur, pos
+
+
+def true_facts(summary) -> List[List[Term]]:
+    """For a boolean function: the fact sets under which it can return a truthy value - one list per such return.
+    `return True` contributes the facts of its path; `return <expr>` contributes path facts + expr assumed true."""
+    out = []
+    for pc, t, node, _st in summary.returns:
+        if node is None:
+            continue
+        if is_const(t) and not t[1]:
+            continue
+        if is_const(t):
+            out.append(atoms(pc))
+        else:
+            out.append(atoms(tuple(pc) + ((t, True),)))
+    return out
+
+
+def false_facts(summary) -> List[List[Term]]:
+    out = []
+    for pc, t, node, _st in summary.returns:
+        if node is None:
+            continue
+        if is_const(t) and t[1]:
+            continue
+        if is_const(t):
+            out.append(atoms(pc))
+        else:
+            out.append(atoms(tuple(pc) + ((t, False),)))
+    return out
+
+
+def digest_parts(t: Term):
+    """(algorithm, [hashed parts in order]) for  hashlib.X(a).digest() / hashlib.X(); .update(a); .update(b); .digest() /
+    hashlib.new("X", a).digest()  (hexdigest likewise), else None."""
+    if not (isinstance(t, tuple) and t and t[0] == "call" and t[1][0] == "meth" and t[1][2] in ("digest", "hexdigest")):
+        return None
+    h = t[1][1]
+    parts = []
+    while h[0] == "mut" and h[1] == "update":
+        parts = list(h[3][:1]) + parts
+        h = h[2]
+    alg = None
+    if call_is(h, "hashlib.md5", "hashlib.sha256", "hashlib.sha1"):
+        alg = h[1][1].split(".")[-1]
+        init = list(h[2][:1])
+    elif call_is(h, "hashlib.new") and h[2] and is_const(h[2][0]):
+        alg = str(h[2][0][1]).lower()
+        init = list(h[2][1:2])
+    else:
+        return None
+    flat = []
+
+    def cat(x):
+        x2 = strip(x)
+        if x2[0] == "bin" and x2[1] == "+":
+            cat(x2[2]), cat(x2[3])
+        else:
+            flat.append(x2)
+    for x in init + parts:
+        cat(x)
+    return alg, flat
+
+
+def nonnull(t: Term) -> bool:
+    """The value of t is certainly not None (by construction)."""
+    k = t[0]
+    if k == "const":
+        return t[1] is not None
+    if k in ("slice", "bin", "tuple", "list", "dict", "set", "fstr", "cmp", "enum", "comp", "bool", "un"):
+        return True
+    if k == "call":
+        f = t[1]
+        if f[0] == "ext" and f[1] in ("bytes", "bytearray", "memoryview", "len", "int", "str", "bool", "int.from_bytes", "list", "dict", "tuple", "set"):
+            return True
+        if f[0] == "meth" and f[2] in ("tobytes", "hex", "digest", "to_bytes", "encode", "decode", "find", "copy", "format", "join"):
+            return True
+    return False
+
+
+def _none_cases(x: Term, want: bool) -> List[List[Term]]:
+    """DNF of (x is None) == want for a gated term x."""
+    if x[0] == "ite":
+        return [p + q for p in alternatives(x[1], True) for q in _none_cases(strip(x[2]), want)] + \
+               [p + q for p in alternatives(x[1], False) for q in _none_cases(strip(x[3]), want)]
+    if x == ("const", None):
+        return [[]] if want else []
+    if nonnull(x):
+        return [] if want else [[]]
+    return [[("cmp", "is" if want else "is not", x, ("const", None))]]
+
+
+def _neg_atom(a: Term) -> Term:
+    if a[0] == "cmp":
+        return ("cmp", NEG[a[1]], a[2], a[3])
+    if a[0] == "un" and a[1] == "not":
+        return a[2]
+    return ("un", "not", a)
+
+
+def cases(pc, cap: int = 256) -> List[List[Term]]:
+    """The path condition as a list of cases (each a list of definite positive atoms): the product of the alternatives of every
+    conjunct, contradictory cases removed.  A path condition without disjunctions / gated tests has exactly one case."""
+    out: List[List[Term]] = [[]]
+    for c, truth in pc:
+        alts = alternatives(c, truth)
+        nxt = []
+        for base in out:
+            for alt in alts:
+                case = list(base)
+                ok = True
+                for a in alt:
+                    if _neg_atom(a) in case:
+                        ok = False
+                        break
+                    if a not in case:
+                        case.append(a)
+                if ok:
+                    nxt.append(case)
+        out = nxt
+        if len(out) > cap:
+            raise ValueError("too many cases")
+    return out
+
+
+def decide(c: Term, facts) -> Optional[bool]:
+    """Truth of c under a set of definite atoms, when the atoms settle it."""
+    fs = facts if isinstance(facts, (set, frozenset)) else set(facts)
+    at, af = alternatives(c, True), alternatives(c, False)
+    if any(all(a in fs for a in alt) for alt in at):
+        return True
+    if any(all(a in fs for a in alt) for alt in af):
+        return False
+    # every way of being true contradicts the facts -> false (and vice versa)
+    if at and all(any(_neg_atom(a) in fs for a in alt) for alt in at):
+        return False
+    if af and all(any(_neg_atom(a) in fs for a in alt) for alt in af):
+        return True
+    if not at:
+        return False
+    if not af:
+        return True
+    return None
+
+
+def simplify(t, facts):
+    """Resolve the gates of t that the facts settle."""
+    fs = facts if isinstance(facts, (set, frozenset)) else set(facts)
+    if not isinstance(t, tuple):
+        return t
+    if t and t[0] == "ite":
+        d = decide(t[1], fs)
+        if d is True:
+            return simplify(t[2], fs)
+        if d is False:
+            return simplify(t[3], fs)
+    return tuple(simplify(x, fs) for x in t)
+
+
+def alternatives(c: Term, truth: bool) -> List[List[Term]]:
+    """Disjunctive normal form of (c is truth): a list of alternatives, each a list of positive atoms."""
+    c = c if isinstance(c, tuple) else ("const", c)
+    if c[0] == "un" and c[1] == "not":
+        return alternatives(c[2], not truth)
+    if c[0] == "cmp" and c[1] in ("is", "is not", "==", "!=") and (c[2] == ("const", None) or c[3] == ("const", None)):
+        # None test of a gated value (typically the Optional result of an inlined helper): split on the gates
+        x = c[3] if c[2] == ("const", None) else c[2]
+        want = truth if c[1] in ("is", "==") else not truth
+        if strip(x)[0] == "ite" or strip(x) == ("const", None) or nonnull(strip(x)):
+            return _none_cases(strip(x), want)
+    if c[0] == "cmp":
+        return [[c if truth else ("cmp", NEG[c[1]], c[2], c[3])]]
+    if c[0] == "ite" and is_const(c[2]) and is_const(c[3]) and isinstance(c[2][1], bool) and isinstance(c[3][1], bool):
+        # a gated boolean constant (boolean result of an inlined helper)
+        if c[2][1] == c[3][1]:
+            return [[]] if c[2][1] == truth else []
+        return alternatives(c[1], truth if c[2][1] else not truth)
+    if c[0] == "ite":
+        return [p + q for p in alternatives(c[1], True) for q in alternatives(c[2], truth)] + \
+               [p + q for p in alternatives(c[1], False) for q in alternatives(c[3], truth)]
+    if c[0] == "const":
+        return [[]] if bool(c[1]) == truth else []
+    if c[0] == "bool":
+        if (c[1] == "and") == truth:
+            acc = [[]]
+            for x in c[2]:
+                acc = [p + q for p in acc for q in alternatives(x, truth)]
+            return acc
+        out = []
+        for x in c[2]:
+            out += alternatives(x, truth)
+        return out
+    if c[0] == "call" and c[1] == ("ext", "bool") and len(c[2]) == 1:
+        return alternatives(c[2][0], truth)
+    return [[c if truth else ("un", "not", c)]]
+
+
+def pc_implies(pc, pred) -> bool:
+    """The path condition (a conjunction) implies `pred(atom)` for some atom: some conjunct is such that *every* one of its
+    alternatives contains an atom satisfying pred."""
+    for c, truth in pc:
+        alts = alternatives(c, truth)
+        if alts and all(any(pred(a) for a in alt) for alt in alts):
+            return True
+    return False
